@@ -86,12 +86,25 @@ static int do_open(const char *name, int (*real)(const char *, int, ...), const 
         char d[4400];
         snprintf(d, sizeof d, "%s %s%s%s", rel(path)[0] ? rel(path) : ".", (flags & O_CREAT) ? "C" : "", (flags & O_TRUNC) ? "T" : "",
                  ((flags & O_ACCMODE) == O_RDONLY) ? "R" : "W");
+        // a directory opened for listing is a scheduling point of its own kind ("opendir"): a walk (List) can be overtaken between
+        // reading a directory and opening a sub-directory it saw there. The root itself and the control directory are not.
         if (!(flags & O_DIRECTORY)) gate(name, d);
+        else if (rel(path)[0] && strcmp(rel(path), ".copia") != 0) gate("opendir", rel(path));
         int fd = real(path, flags, mode);
         if (fd >= 0 && !(flags & O_DIRECTORY)) track(fd, path);
         return fd;
     }
     return real(path, flags, mode);
+}
+
+#include <dirent.h>
+// Rust's `read_dir` calls libc's opendir (whose own open is not interposable): the walk of List becomes schedulable here
+DIR *opendir(const char *name) {
+    static DIR *(*real)(const char *);
+    if (!real) real = dlsym(RTLD_NEXT, "opendir");
+    init();
+    if (gfd >= 0 && under_root(name) && rel(name)[0] && strcmp(rel(name), ".copia") != 0) gate("opendir", rel(name));
+    return real(name);
 }
 
 int open(const char *path, int flags, ...) {
